@@ -362,7 +362,7 @@ pub fn build(
             continue;
         };
 
-        let mut add_functions = |functions: &[Function]| {
+        let mut add_functions = |functions: &[Function]| -> anyhow::Result<()> {
             for function in functions
                 .iter()
                 .filter(|f| f.is_public() && !f.is_internal())
@@ -376,21 +376,29 @@ pub fn build(
                         base_name,
                         original_name.strip_prefix("r#").unwrap_or(&original_name)
                     );
+                    // the new name may be taken as well (the derived type would define it twice)
+                    if associated_functions_used_names.contains(util::plain_ident(&function.name)) {
+                        anyhow::bail!(
+                            "function `{original_name}` of base `{base_name}` of type `{resolvee_path}` cannot be exposed as `{}`: that name is already taken",
+                            function.name
+                        );
+                    }
                 }
                 function.body = FunctionBody::field(base_name.clone(), original_name);
                 associated_functions_used_names
                     .insert(util::plain_ident(&function.name).to_string());
                 associated_functions.push(function);
             }
+            Ok(())
         };
 
         // Push this base's associated functions into the type
-        add_functions(&base_type.associated_functions);
+        add_functions(&base_type.associated_functions)?;
 
         if i > 0 {
             // Inject all non-first-base vfuncs into the type
             if let Some(vftable) = &base_type.vftable {
-                add_functions(&vftable.functions);
+                add_functions(&vftable.functions)?;
             }
         }
     }
